@@ -70,7 +70,7 @@ class Job:
     def __init__(self, name, sources, entry='harness', incs=(), defs=(), flags=(), backends=('sat',),
                  timeout=None, replay=None, sample=None, group=None, cwd=None, unwind=None,
                  nontrivial=True, big_endian=False, extra_checks=(), no_default_checks=False,
-                 expect_fail=(), kind='cbmc', witnesses=('.',)):
+                 expect_fail=(), kind='cbmc', witnesses=('.',), auto_check_files=None, ignore_desc=()):
         self.name, self.sources, self.entry = name, list(sources), entry
         self.incs, self.defs, self.flags = list(incs), list(defs), list(flags)
         self.backends = list(backends)
@@ -84,6 +84,8 @@ class Job:
         self.big_endian = big_endian
         self.extra_checks = list(extra_checks)
         self.no_default_checks = no_default_checks
+        self.auto_check_files = auto_check_files   # basenames: instrumented (non-user) checks count only in these files
+        self.ignore_desc = list(ignore_desc)
         self.witnesses = list(witnesses)   # regexes: each must match a WITNESS assertion reported FAILED
         self.expect_fail = list(expect_fail)   # regexes of descriptions expected to FAIL (treated like witnesses)
 
@@ -251,6 +253,15 @@ def run_job(job, ctx):
         d = p.get('description', '')
         st = p.get('status')
         is_w = d.startswith('WITNESS') or any(re.search(x, d) for x in job.expect_fail)
+        pname = p.get('property', '')
+        is_user = '.assertion.' in pname or '.unwind.' in pname or '.recursion' in pname
+        if not is_w and not is_user:
+            if any(re.search(x, d) for x in job.ignore_desc):
+                continue
+            if job.auto_check_files is not None:
+                f = os.path.basename(p.get('sourceLocation', {}).get('file', '') or '')
+                if f not in job.auto_check_files:
+                    continue
         if is_w:
             if st == 'FAILURE':
                 res.witness_ok += 1
